@@ -35,6 +35,7 @@ std::vector<GeodeticCoordinates> anchors() {
 void lattice(vf::Ctx& c, size_t ia) {
   GeodeticCoordinates A = anchors()[ia];
   ENUConverter conv(A);
+  ENUConverter other(anchors()[(ia * 7 + 3) % anchors().size()]);   // a second converter, anchored elsewhere, used between the calls below
   std::string ap = vf::JO().num("anchor_lat", A.latitude).num("anchor_lon", A.longitude).num("anchor_h", A.altitude).done();
   Frame f = ref_frame(A.latitude, A.longitude, A.altitude);
   const Eigen::Affine3d& T = conv.getEnuToEcefTransform();
@@ -58,6 +59,7 @@ void lattice(vf::Ctx& c, size_t ia) {
     Eigen::Vector3d p(x, y, z);
     c.eval(); if (std::fabs(A.latitude) > 1.4 || M_PI - std::fabs(A.longitude) < 1e-3) c.nontrivial(); else if (x != 0 && y != 0) c.nontrivial();
     std::string params = vf::JO().num("anchor_lat", A.latitude).num("anchor_lon", A.longitude).num("anchor_h", A.altitude).vec("local", std::vector<double>{x, y, z}).done();
+    (void)other.toENU(other.toECEF(p)); (void)other.toWGS84(p);
     Eigen::Vector3d e = conv.toECEF(p), e2 = conv.toECEF(x, y, z);
     for (int i = 0; i < 3; ++i) c.obs(e[i]);
     L3 want = f.t + f.R * p.cast<long double>();
@@ -67,6 +69,7 @@ void lattice(vf::Ctx& c, size_t ia) {
     if (fabsl(d1 - d0) > 1e-6L + 1e-12L * d0) c.violation("ENUConverter.isometry", params, vf::JO().num("local_distance", d0).num("ecef_distance", d1).done());
     prevLocal = p; prevEcef = e;
     // mutual inverses within 1 mm
+    (void)other.toENU(makeGeodeticCoordinates(A.latitude, A.longitude, A.altitude));
     Eigen::Vector3d b1 = conv.toENU(e);
     GeodeticCoordinates g = conv.toWGS84(p), g2 = conv.toWGS84(x, y, z);
     Eigen::Vector3d b2 = conv.toENU(g);
